@@ -9,8 +9,11 @@ INT_RANGES = {
     'WORD': (0, 2**16 - 1), 'DWORD': (0, 2**32 - 1),
 }
 NUMERIC = ['BOOL', 'SINT', 'INT', 'DINT', 'LINT', 'USINT', 'UINT', 'UDINT', 'ULINT', 'REAL', 'LREAL']
-FLOATS32 = [0.0, -0.0, 1.0, -1.0, 1.5, 3.4028234663852886e38, -3.4028234663852886e38, 1.1754943508222875e-38, 1e-45, float('inf'), float('-inf'), 0.1, 16777217.0]
-FLOATS64 = [0.0, -0.0, 1.0, -1.0, 1e308, -1e308, 5e-324, 2.2250738585072014e-308, float('inf'), float('-inf'), 0.1, 1 / 3, 9007199254740993.0]
+FLOATS32 = [0.0, -0.0, 1.0, -1.0, 1.5, 3.4028234663852886e38, -3.4028234663852886e38, 1.1754943508222875e-38, 1e-45, float('inf'), float('-inf'), 0.1, 16777217.0,
+            # around the widths of the integer types: a float treated as an integer anywhere on its way shows here
+            2147483648.0, -2147483648.0, 3e9, 4294967296.0, 4294967295.0, 9.223372036854775808e18, 1.8446744073709552e19, 32768.0, 65536.0, 255.5, -128.5]
+FLOATS64 = [0.0, -0.0, 1.0, -1.0, 1e308, -1e308, 5e-324, 2.2250738585072014e-308, float('inf'), float('-inf'), 0.1, 1 / 3, 9007199254740993.0,
+            2147483648.0, -2147483649.0, 3e9, 4294967296.5, 9.223372036854775808e18, 1e19, 1.8446744073709552e19, 2.0 ** 53 + 2, 65535.5]
 
 
 def f32(x):
